@@ -3,7 +3,7 @@
 ENGINES = [
     {"name": "sa", "path": "/verif/sa",
      "serves_properties": [],
-     "kind_free_text": "custom static analyser over python ast: source model + resolver (E1), statement CFG with "
+     "kind_free_text": "custom static analyser over python ast: abstract interpreter with inlining of package helpers and models of numpy/scipy objects (E8), source model + resolver (E1), statement CFG with "
                        "dominators (E2), reaching definitions / provenance (E3), effect tables (E4), index-space and "
                        "layout typing (E5), polynomial canonical forms (E6), thin-wrapper normal form (E7)"},
 ]
@@ -13,20 +13,26 @@ _TB = ("python ast gives the program that runs; sympy/numpy/scipy behave as docu
 
 CLAIMED = {
     "C08": {
-        "technique": "static analysis: call-graph closure of definition-state writers + CFG must-pass-through of trip(); "
-                     "registry/canary set agreement; truth table of the recompile guard; cache-refresh dominance",
-        "level": "Decides, for all histories at once, the structural necessary conditions of freshness: every write to "
-                 "(computed) model-definition state reaches trip() on every normal exit; every registered evaluator has a "
-                 "flag in the operative canary; the evaluator closure recompiles whenever its flag is set; the recompile "
-                 "routine regenerates, stores, trips-if-master and resets its own flag; generators refresh the caches they "
-                 "read and return no memo; no construction-time snapshot of definition state survives. Does not decide "
-                 "that the regenerated expression is compiled correctly (library).",
+        "technique": ('static analysis by abstract interpretation of the syntax tree (nothing of /repo is imported or run): the '
+                     'evaluator protocol (add_func / add_compiled_sympy_object, helpers inlined from their own source) is '
+                     'played on every history of <= 4 steps over {evaluate ode, evaluate another evaluator, modify the model, '
+                     "add a parameter, assign parameter values} against 'what a freshly built model returns'; call-graph "
+                     'closure of definition-state writers + CFG must-pass-through of trip(); registry/canary agreement; '
+                     'cache-refresh dominance; all sequences of three parameter assignments'),
+        "level": ('Decides, for all histories up to the stated length, that no evaluator returns a value compiled from an '
+                     'earlier definition, symbol order or parameter values; for all histories at once, that every write to '
+                     '(computed) model-definition state reaches trip() on every normal exit, that every registered evaluator '
+                     'has a flag in the operative per-instance canary, that generators refresh the caches they read. Does not '
+                     'decide that the regenerated expression is compiled correctly (library).'),
         "note": _TB,
     },
     "C19": {
-        "technique": "static analysis: abstract execution of each thin wrapper under all flag scenarios; callee and "
-                     "argument normal forms (rational-function canonical forms) compared with a spec table; closed-form "
-                     "densities compared with references as polynomials over log/lgamma atoms; declared-parameter use",
+        "technique": ('static analysis by abstract interpretation of the syntax tree (nothing of /repo is imported or run): '
+                     'every d/p/q/r helper is interpreted under all flag scenarios (log, seed in {None, 0, 1, int}, n=1/n>1) '
+                     'against recording models of scipy.stats distributions and numpy generators; the recorded library call '
+                     "(object, method, bound arguments as rational functions) is compared with R's parameterisation; "
+                     'closed-form densities compared with references as polynomials over log/lgamma atoms; declared-parameter '
+                     'use'),
         "level": "Decides for every d/p/q/r helper, on every flag path (log, seed None/int, n=1/n>1), which scipy/numpy "
                  "routine is called with which arguments, and compares with R's parameterisation (scale=1/rate etc.); "
                  "decides that seeded generators draw from test_seed(seed); proves nb2pmf == NB(n=k,p=k/(k+mu)) and "
@@ -34,59 +40,75 @@ CLAIMED = {
         "note": _TB + "; spec table sa/specs/utilr.py",
     },
     "C02": {
-        "technique": "static analysis: taint of the integrator buffer .y with copy sanitisers and one level of callee "
-                     "summaries; CFG path counting of appends per loop iteration; slice/argument agreement of the grid "
-                     "hand-over; func/jac pairing and parameter-name agreement at call sites; literal table agreement of "
-                     "integrator names; shape inference of the jacobian evaluator",
-        "level": "Decides the repo-owned half of 'one row per requested time, in order, origin first': no aliasing of "
-                 "the integrator buffer into the rows, exactly one append per loop iteration on every path, t0 prepended, "
-                 "t[0]/t[1:] hand-over, correct (func, jac) pairs with the orientation scipy expects, integrator table. "
-                 "Does not decide that a row equals the true solution to tolerance (scipy's integrators).",
+        "technique": ('static analysis by abstract interpretation of the syntax tree (nothing of /repo is imported or run): '
+                     'integrateFuncJac, integrate and integrate2 (helpers inlined) are interpreted against a model of '
+                     "scipy.integrate.ode / odeint written from scipy's interface (exact flow of a test problem, state buffer "
+                     "updated in place, evaluators called with the library's argument order) over all grid forms x "
+                     'includeOrigin x full_output x methods x eigenvalue schedules x integer/float x0; func/jac pairing and '
+                     'parameter-name agreement at the remaining call sites; shape inference of the jacobian evaluator'),
+        "level": ("Decides the repo-owned half of 'one row per requested time, in order, origin first, each row the solution "
+                     "at its own time': with an exact model integrator the rows must equal the exact flow at the requested "
+                     'times (so buffer aliasing, dropped/duplicated/shifted rows, restarts from the wrong time, dtype '
+                     "truncation and wrong grids all show), integrators are set up with existing scipy names, the caller's "
+                     "functions, tolerances and step budget, a failed step raises. Does not decide that scipy's integrators are "
+                     'accurate.'),
         "note": _TB,
     },
     "C01": {
-        "technique": "static analysis: effect tables of the five sibling builders per transition type with canonical "
-                     "values over MAG/RATE atoms; same-value opposite-sign pairing; accumulator summation as a polynomial "
-                     "identity; role sequences of symbol/value lists; shape inference of registered evaluators",
-        "level": "Decides term by term, for all models at once, that each builder applies B:{+dest} D:{-orig} "
-                 "T:{-orig,+dest} with magnitude*rate (ODE) / magnitude (state-change matrix) in the event's own column, "
-                 "that the rate vector uses the same enumeration, that all accumulators are summed, that symbols and "
-                 "values share the order (states,t,params) with values placed by name, that derived parameters are "
-                 "substituted for all entries, and that matrix output is not flattened. Together: ODE = V*a + explicit "
-                 "terms symbolically. Does not decide sympy parsing or compiled-code numerics.",
+        "technique": ('static analysis by abstract interpretation of the syntax tree (nothing of /repo is imported or run): the '
+                     'seven symbolic builders are interpreted (sympy replaced by matrices of canonical rational functions, '
+                     'checkEquation by the identity on symbols) on enumerated model definitions (1..3 B/D/T members per event, '
+                     'shared states, literal and symbolic magnitudes, explicit terms, one-state / one-event shapes) and '
+                     'compared entry by entry, as polynomial identities in the rate and magnitude symbols, with V, rates, ode = '
+                     'V*rates + explicit terms, reactant matrix; compileExprAndFormat interpreted for every (shape, output '
+                     'type, back-end); role sequences of symbol/value lists; namespace rule; shape inference'),
+        "level": ('Decides that each builder returns exactly the matrices the property defines on every enumerated '
+                     'definition class (any rewriting that computes the same matrices is accepted), that symbols and values '
+                     'share the order (states,t,params) with values placed by name, that derived parameters are substituted for '
+                     'all entries, that matrix output is not flattened and explicit output types are respected. Does not decide '
+                     'sympy parsing or compiled-code numerics.'),
         "note": _TB,
     },
     "C04": {
-        "technique": "static analysis: typestate/dominance over the CFG of SimulateOde._jump (a state is recorded only "
-                     "under a positive success test; failure ends the run), provenance of recorded values to stepper "
-                     "result slots, abstract evaluation of the per-event tau step and of the limit test, arity agreement, "
-                     "shape inference of vMat",
-        "level": "Decides that a recorded state can only be x + V[:,k]*n (+drift) that passed _checkJump, that counts "
-                 "reported equal counts applied (same index, same draw; one-hot in exact mode), that t_new = t + dt on "
-                 "success and nothing changes on failure, that vMat is a matrix for every model size, and that stepper "
-                 "returns have the arity their callers unpack (three named, unreachable exceptions). Does not decide "
-                 "positivity/integrality of numpy draws or termination time.",
+        "technique": ('static analysis by abstract interpretation of the syntax tree (nothing of /repo is imported or run): '
+                     'SimulateOde._jump and everything it calls (firstReaction, tauLeap, _checkJump, _newJumpTimes, '
+                     "_updateStateWithJump, the adaptive step rule, rexp/rpois down to numpy's samplers) is interpreted on "
+                     'small concrete models with scripted stand-ins for the random draws and compared record by record (states, '
+                     'per-step counts, times, steps; two consecutive runs per scenario) with the walk the property defines; '
+                     'finite evaluation of the limit test over all bound shapes; shape inference of vMat'),
+        "level": ('Decides on every scenario (exact / fixed tau / adaptive tau; default, upper, two-sided, raised lower '
+                     'limits; zero-rate events; one state / one event; drift; integer and float initial states; rejected leaps '
+                     'with successful and failing fall-back; extinction; horizon) that the recorded path is exactly the legal '
+                     'walk: start at (x0,t0), strictly increasing times, one-hot / Poisson counts, state change = V x counts (+ '
+                     'drift*tau), rejected steps change nothing. Does not decide positivity/integrality of numpy draws.'),
         "note": _TB,
     },
     "C05": {
-        "technique": "static analysis: premises of the first-reaction theorem as data-flow facts (own rate in rexp's rate "
-                     "slot under r>0, scale=1/rate, argmin index shared by event choice and time increment)",
-        "level": "Decides only the three structural premises under which the first-reaction method samples the CTMC law; "
-                 "the law itself (a statistical statement about runs) is not decided.",
+        "technique": ('static analysis by abstract interpretation of the syntax tree (nothing of /repo is imported or run): '
+                     'exact-mode runs of _jump interpreted with scripted exponential draws and compared with the first-reaction '
+                     'walk (one clock of mean 1/rate per positive-rate event, earliest fires, time advances by that clock); '
+                     'rexp interpreted against a recording generator (scale = 1/rate); last-event look-up interpreted on '
+                     'concrete grids'),
+        "level": ('Decides the premises under which the first-reaction method samples the CTMC law (own rate per clock, '
+                     'reciprocal scale, argmin shared by event choice and time increment, no rescaling); the law itself (a '
+                     'statistical statement about runs) is not decided.'),
         "note": _TB + "; first-reaction theorem (Gillespie 1976)",
     },
     "C10": {
-        "technique": "static analysis: same-value/opposite-sign pairing in the T-branch of the ODE and state-change-matrix "
-                     "builders, additive accumulation, column-update-only provenance of the simulated state",
+        "technique": ('static analysis by abstract interpretation of the syntax tree (nothing of /repo is imported or run): ODE '
+                     'and state-change-matrix builders interpreted on enumerated definitions incl. a closed multi-member model '
+                     '(column sums and component sum identically zero as polynomial identities); simulated paths interpreted '
+                     'against the reference walk (every state = previous + V x counts)'),
         "level": "Structural proof that for transition-only models the ODE components and every state-change column sum "
                  "to zero identically (for all rates and magnitudes), and that stochastic paths move only by such columns. "
                  "Deterministic conservation 'within solver tolerance' is not decided.",
         "note": _TB,
     },
     "C11": {
-        "technique": "static analysis: finite abstract evaluation of the limit test over all (lower, upper) shapes x "
-                     "{below, inside, above}; typestate of the success flag over the CFG of _jump and the steppers; "
-                     "default-limit data flow",
+        "technique": ('static analysis by abstract interpretation of the syntax tree (nothing of /repo is imported or run): '
+                     '_checkJump evaluated on 60 (position, limit shape, value) cases; _jump interpreted on models with upper, '
+                     'two-sided and raised lower limits (exact, fixed and adaptive tau) against the limit-respecting reference '
+                     'walk; default-limit data flow'),
         "level": "Decides that a step is rejected iff it leaves a present bound, for every state; that rejection returns "
                  "the old state/time; that only accepted states are recorded; that failure of the fall-back ends the run; "
                  "that undeclared limits default to (0, None). The initial state being inside the limits is user input.",
@@ -103,10 +125,11 @@ CLAIMED = {
         "note": _TB + "; abstract values are opaque tokens, control data concrete",
     },
     "C12": {
-        "technique": "static analysis: intra-procedural abstract execution of Event.__init__, Transition.__init__, "
-                     "add_transition/add_event/add_birth_death/add_ode and the list setters over completely enumerated "
-                     "abstract input classes; equality of the normalised event descriptor across API routes; effect tables "
-                     "for order independence",
+        "technique": ('static analysis by abstract interpretation of the syntax tree (nothing of /repo is imported or run): '
+                     'Transition.__init__ (with its real helpers), Event.__init__, '
+                     'add_transition/add_event/add_birth_death/add_ode and the list setters interpreted over completely '
+                     'enumerated abstract input classes; equality of the normalised event descriptor across API routes; '
+                     'builders interpreted on enumerated definitions for order independence'),
         "level": "Decides that every route (Event, Transition with own rate, legacy lists, birth by origin or destination) "
                  "normalises a T/B/D process to the same (rate, type, origin, destination, magnitude); that Event accepts "
                  "iff exactly one rate is supplied and keeps it; that setters delegate all elements in order; that both "
@@ -124,9 +147,10 @@ CLAIMED = {
         "note": _TB,
     },
     "C15": {
-        "technique": "static analysis: loop-variable dependence of the stored column and histogram-argument agreement "
-                     "(R-LOOPDEP); abstract execution of the last-event look-up over hit/between/before/after targets and of "
-                     "solve_stochast's time-argument handling over list/tuple/array/scalar x exact/tau",
+        "technique": ('static analysis by abstract interpretation of the syntax tree (nothing of /repo is imported or run): '
+                     '_addJumpsBetweenTime interpreted on concrete event records (even/uneven grids, grids longer/shorter than '
+                     'the path, exact and tau counts) with a histogram model; last-event look-up and time-argument handling '
+                     'interpreted over all accepted grid forms; simulated paths against the reference walk'),
         "level": "Decides that per-interval counts are per transition (column i from column i of the jump record, event "
                  "times without the initial time, target grid as bins), that the look-up returns the state at the last event "
                  "time <= each target in order, and that gridded runs route states/counts/grid through these routines with "
@@ -134,9 +158,12 @@ CLAIMED = {
         "note": _TB + "; numpy histogram/searchsorted/where semantics as documented",
     },
     "C16": {
-        "technique": "static analysis: interprocedural reachability with constant propagation (seed=None, parallel=False) "
-                     "and branch pruning against a catalogue of generator constructors, with a positive control on the "
-                     "parallel branch; in-place mutation scan; same-object data flow between mean and returned list",
+        "technique": ('static analysis by abstract interpretation of the syntax tree (nothing of /repo is imported or run): two '
+                     'consecutive runs of _jump on one model object with one scripted random stream must both be the reference '
+                     "walk and all draws must come from numpy's global generator; the parameters setter interpreted on "
+                     'frozen-distribution and (sampler, args) inputs over repeated assignments with negative/zero/positive '
+                     'draws; interprocedural reachability of local generators with constant propagation (seed=None, '
+                     'parallel=False) and a positive control; same-object data flow between mean and returned list'),
         "level": "Decides that serial runs can only draw through numpy's global generator (so a global seed fixes the "
                  "stream), that each run starts from a copy of the initial state and no stepper mutates its input, and "
                  "that the reported mean is over the returned list along the stacking axis. 'Different seeds differ' is "
@@ -144,18 +171,24 @@ CLAIMED = {
         "note": _TB,
     },
     "C17": {
-        "technique": "static analysis: CFG dominance of the accepting exit by the prior-support and strict tolerance tests, "
-                     "producer/consumer tuple-slot agreement, abstract execution of the tolerance schedule, sibling agreement "
-                     "of parameter-order derivation",
-        "level": "Decides that a particle can only be stored after density-product>0 and cost<tolerance with cost evaluated "
-                 "at (a copy of) that particle in model order; that weight/particle/distance land in w[i]/res[i]/dist[i]; "
-                 "that the schedule is supplied/quantile-of-stored-distances/list and continuation cannot raise it. Weight "
-                 "finiteness and np.quantile monotonicity are not decided.",
+        "technique": ('static analysis by abstract interpretation of the syntax tree (nothing of /repo is imported or run): '
+                     'ABC.__init__, get_posterior_sample, continue_posterior_sample, _perform_generation, get_tolerance and '
+                     '_log_parameters are interpreted as whole runs (rejection, SMC list / quantile, nearest neighbours, '
+                     'continued, legacy sampler) on abstract inference problems with scripted proposal streams (outside '
+                     'support, back-transform inside/outside, cost above / exactly at / below tolerance) and a known cost; the '
+                     "stored posterior is checked against the property's own statement"),
+        "level": ('Decides on every interpreted run that each stored particle has positive prior density, that its stored '
+                     "distance equals the cost recomputed at it (loss object's order, log-scale components back-transformed) "
+                     "and is below its generation's tolerance, that weights are positive and finite, that the schedule is the "
+                     'documented one, never increases under quantile scheduling and cannot be raised by a continuation; '
+                     'admissible proposals are not rejected for ever. Cost reproducibility itself needs C02.'),
         "note": _TB,
     },
     "C18": {
-        "technique": "static analysis: abstract execution of BaseLoss.fit up to the optimiser call with numpy packing "
-                     "semantics on token lists; inspection of the recorded minimize() arguments",
+        "technique": ('static analysis by abstract interpretation of the syntax tree (nothing of /repo is imported or run): '
+                     'BaseLoss.fit interpreted up to the optimiser call on the concrete array model (values, dtype and casting '
+                     'as numpy documents) incl. mixed int/float, 0, inf and one-sided bounds; inspection of the recorded '
+                     'minimize() arguments; constructor interpreted on 11 name-order combinations'),
         "level": "Decides only the repo-owned wiring: bounds row i = (lb[i], ub[i]) for box, one-sided and absent bounds; "
                  "objective/gradient from the same object; start = caller's x; bounded method; mismatched lengths rejected. "
                  "Feasibility and descent of L-BFGS-B/SLSQP are trusted, not decided.",
